@@ -86,13 +86,34 @@ Qed.
 (* a call produces exactly one line for handler i iff level >= handler.level — provided the
    logger-level threshold is below every handler level (true for every logger built by
    add_handler; false after a set_level that lowers an attached handler) *)
+(* repaired code: no invariant is needed, the early-out asks the handlers themselves *)
+Lemma existsb_should_write_false hs level i h :
+  existsb (fun h0 => should_write h0 level) hs = false -> nth_error hs i = Some h -> should_write h level = false.
+Proof.
+  intros He Hn. destruct (should_write h level) eqn:E; [|reflexivity].
+  assert (existsb (fun h0 => should_write h0 level) hs = true).
+  { apply existsb_exists. exists h. split; [eapply nth_error_In; eauto|exact E]. }
+  congruence.
+Qed.
+
+Lemma filter_exact_repaired format L limit lg level id text i h :
+  nth_error (lg_handlers lg) i = Some h ->
+  emits_to i (sync_log format L limit true lg level id text) = if h_level h <=? level then 1%nat else 0%nat.
+Proof.
+  intros Hnth. unfold sync_log, prefilter, logger_write.
+  destruct (existsb (fun h0 => should_write h0 level) (lg_handlers lg)) eqn:E; simpl.
+  - rewrite logger_write_from_count. rewrite Nat.sub_0_r, Hnth. simpl. rewrite should_write_leb. reflexivity.
+  - rewrite <- should_write_leb. rewrite (existsb_should_write_false _ _ _ _ E Hnth). reflexivity.
+Qed.
+
 Lemma filter_exact_gen format L limit fixed lg level id text i h :
   lowest_ok lg -> nth_error (lg_handlers lg) i = Some h ->
   emits_to i (sync_log format L limit fixed lg level id text) = if h_level h <=? level then 1%nat else 0%nat.
 Proof.
-  intros Hlow Hnth. unfold sync_log, logger_write.
+  intros Hlow Hnth. destruct fixed; [apply filter_exact_repaired; exact Hnth|].
+  unfold sync_log, prefilter, logger_write.
   pose proof (Hlow h (nth_error_In _ _ Hnth)) as Hle.
-  destruct (Z.gtb_spec (lg_lowest lg) level) as [Hgt|Hgt].
+  destruct (Z.gtb_spec (lg_lowest lg) level) as [Hgt|Hgt]; simpl.
   - destruct (Z.leb_spec (h_level h) level); [lia|reflexivity].
   - rewrite logger_write_from_count. rewrite Nat.sub_0_r, Hnth. simpl.
     rewrite should_write_leb. reflexivity.
@@ -126,7 +147,7 @@ Proof. unfold built. rewrite built_handlers_gen. simpl. rewrite Nat.sub_0_r. ref
 Lemma async_seq_equals_sync format L limit fixed lg level id text :
   async_log_seq format L limit fixed lg level id text true true =
   Some (sync_log format L limit fixed lg level id text).
-Proof. unfold async_log_seq, sync_log. destruct (lg_lowest lg >? level); reflexivity. Qed.
+Proof. unfold async_log_seq, sync_log. destruct (prefilter fixed lg level); reflexivity. Qed.
 
 (* ------------------------------------------------------------------ *)
 (* truncation and buffer indices                                       *)
@@ -295,122 +316,100 @@ Definition hstep (L : levels) (lg : logger) (o : hop) : logger :=
   end.
 Definition hrun (L : levels) (ops : list hop) : logger := fold_left (hstep L) ops (logger_init L).
 
-(* as the code computes it, for EVERY history: a call reaches handler i iff it passes the
-   snapshot test of the logger and the handler's current level test *)
-Lemma filter_as_coded format L limit fixed lg level id text i h :
+(* repaired code, EVERY history of add_handler / set_level / log calls: a log call produces exactly
+   one line for handler i iff its level is at or above that handler's level AT THE TIME OF THE CALL *)
+Theorem filter_exact_history format L limit pre level id text i h :
+  nth_error (lg_handlers (hrun L pre)) i = Some h ->
+  emits_to i (sync_log format L limit true (hrun L pre) level id text)
+  = if h_level h <=? level then 1%nat else 0%nat.
+Proof. apply filter_exact_repaired. Qed.
+
+(* in the concurrent scenarios the levels are static and the early-out is a fixed threshold *)
+Lemma prefilter_static hs level :
+  match min_level hs with
+  | Some m => existsb (fun h => should_write h level) hs = (m <=? level)
+  | None => hs = []
+  end.
+Proof.
+  induction hs as [|h r IH]; simpl; [reflexivity|].
+  rewrite should_write_leb. destruct (min_level r) as [m|].
+  - rewrite IH. destruct (Z.ltb_spec (h_level h) m);
+      destruct (Z.leb_spec (h_level h) level), (Z.leb_spec m level); simpl; try reflexivity; lia.
+  - subst r. simpl. apply orb_false_r.
+Qed.
+
+(* the code as first found: a call reaches handler i iff it passes the snapshot test of the
+   logger and the handler's current level test *)
+Lemma filter_as_first_found format L limit lg level id text i h :
   nth_error (lg_handlers lg) i = Some h ->
-  emits_to i (sync_log format L limit fixed lg level id text)
+  emits_to i (sync_log format L limit false lg level id text)
   = if (lg_lowest lg <=? level) && (h_level h <=? level) then 1%nat else 0%nat.
 Proof.
-  intros Hnth. unfold sync_log, logger_write.
-  destruct (Z.gtb_spec (lg_lowest lg) level) as [Hgt|Hgt].
+  intros Hnth. unfold sync_log, prefilter, logger_write.
+  destruct (Z.gtb_spec (lg_lowest lg) level) as [Hgt|Hgt]; simpl.
   - destruct (Z.leb_spec (lg_lowest lg) level); [lia|reflexivity].
   - rewrite logger_write_from_count. rewrite Nat.sub_0_r, Hnth. simpl.
     rewrite should_write_leb. destruct (Z.leb_spec (lg_lowest lg) level); [reflexivity|lia].
 Qed.
 
-(* known class (finding stale-lowest-level): some set_level lowers an attached handler's level
-   below the logger's snapshot *)
-Fixpoint in_stale_class (L : levels) (lg : logger) (ops : list hop) : bool :=
-  match ops with
-  | [] => false
-  | o :: r =>
-    (match o with
-     | HSet i lv => match nth_error (lg_handlers lg) i with
-                    | Some _ => lv <? lg_lowest lg
-                    | None => false
-                    end
-     | _ => false
-     end) || in_stale_class L (hstep L lg o) r
-  end.
-
-Lemma set_nth_level_in hs : forall i lv h', In h' (set_nth_level hs i lv) ->
-  In h' hs \/ (h_level h' = lv /\ exists h0, nth_error hs i = Some h0).
-Proof.
-  induction hs as [|h r IH]; intros i lv h' Hin; simpl in *; [contradiction|].
-  destruct i as [|j]; simpl in Hin.
-  - destruct Hin as [<-|Hin]; [right; simpl; eauto|left; right; exact Hin].
-  - destruct Hin as [<-|Hin]; [left; left; reflexivity|].
-    destruct (IH j lv h' Hin) as [H|H]; [left; right; exact H|right; exact H].
-Qed.
-
-Lemma set_nth_level_none hs : forall i lv, nth_error hs i = None -> set_nth_level hs i lv = hs.
-Proof.
-  induction hs as [|h r IH]; intros i lv Hn; simpl; [reflexivity|].
-  destruct i as [|j]; [discriminate|]. simpl in Hn. rewrite IH by exact Hn. reflexivity.
-Qed.
-
-Lemma hstep_lowest_ok L lg o : lowest_ok lg -> in_stale_class L lg [o] = false -> lowest_ok (hstep L lg o).
-Proof.
-  intros Hl Hc. destruct o as [h|i lv|level id text]; simpl in *.
-  - apply add_handler_lowest_ok. exact Hl.
-  - rewrite orb_false_r in Hc. unfold lowest_ok, set_level. simpl. intros h' Hin.
-    destruct (set_nth_level_in _ _ _ _ Hin) as [H|(Hlv & h0 & Hn)]; [apply Hl; exact H|].
-    rewrite Hn in Hc. apply Z.ltb_ge in Hc. lia.
-  - exact Hl.
-Qed.
-
-Lemma hrun_lowest_ok L : forall ops lg, lowest_ok lg -> in_stale_class L lg ops = false ->
-  lowest_ok (fold_left (hstep L) ops lg).
-Proof.
-  induction ops as [|o r IH]; intros lg Hl Hc; simpl in *; [exact Hl|].
-  apply orb_false_elim in Hc. destruct Hc as [Hc1 Hc2].
-  apply IH; [|exact Hc2]. apply hstep_lowest_ok; [exact Hl|]. simpl. rewrite Hc1. reflexivity.
-Qed.
-
-Lemma in_stale_class_app L : forall a b lg,
-  in_stale_class L lg (a ++ b) = in_stale_class L lg a || in_stale_class L (fold_left (hstep L) a lg) b.
-Proof.
-  induction a as [|o r IH]; intros b lg; simpl; [reflexivity|].
-  rewrite IH, orb_assoc. reflexivity.
-Qed.
-
-(* outside the class: every log call of the history produces exactly one line for handler i
-   iff its level is at or above that handler's level AT THE TIME OF THE CALL *)
-Theorem filter_exact_history format L limit fixed pre post level id text i h :
-  in_stale_class L (logger_init L) (pre ++ HLog level id text :: post) = false ->
-  nth_error (lg_handlers (hrun L pre)) i = Some h ->
-  emits_to i (sync_log format L limit fixed (hrun L pre) level id text)
-  = if h_level h <=? level then 1%nat else 0%nat.
-Proof.
-  intros Hc Hn. rewrite in_stale_class_app in Hc. apply orb_false_elim in Hc. destruct Hc as [Hc _].
-  apply filter_exact_gen; [|exact Hn].
-  apply hrun_lowest_ok; [intros h0 []|exact Hc].
-Qed.
-
-(* inside the class the property fails: the handler is lowered to DEBUG after it was attached at
-   INFO; a DEBUG call is at the handler's level but is dropped by the stale snapshot *)
+(* ... so lowering an attached handler below the snapshot lost calls: handler attached at INFO,
+   lowered to DEBUG, a DEBUG call.  Before the repair: no line; after: one line. *)
 Definition stale_witness : list hop :=
   [HAdd {| h_kind := HCap; h_level := 512; h_fmt := 0 |}; HSet 0 256].
 
-Lemma stale_refuted :
-  let L := {| lv_warning := 768; lv_error := 1024; lv_fatal := 1280; lv_max_handler := 8 |} in
-  in_stale_class L (logger_init L) (stale_witness ++ [HLog 256 0 []]) = true /\
+Lemma stale_before_and_after L : (512 <? lv_fatal L) = true -> Nat.leb 1 (lv_max_handler L) = true ->
   exists h, nth_error (lg_handlers (hrun L stale_witness)) 0 = Some h /\ h_level h <=? 256 = true /\
-  emits_to 0 (sync_log (fun _ m => m_payload m) L 16 true (hrun L stale_witness) 256 0 []) = 0%nat.
-Proof. simpl. split; [reflexivity|]. eexists. split; [reflexivity|]. split; reflexivity. Qed.
-
-(* non-vacuity of the history theorem: raise after add (the single-handler case), a level above
-   FATAL, a lowering that stays at or above the snapshot *)
-Example ex_history :
-  let L := {| lv_warning := 768; lv_error := 1024; lv_fatal := 1280; lv_max_handler := 8 |} in
-  let pre := [HAdd {| h_kind := HCap; h_level := 256; h_fmt := 0 |}; HSet 0 1024; HLog 512 0 []; HSet 0 300] in
-  in_stale_class L (logger_init L) (pre ++ [HLog 512 1 []]) = false /\
-  emits_to 0 (sync_log (fun _ m => m_payload m) L 16 true (hrun L (firstn 2 pre)) 512 0 []) = 0%nat /\
-  emits_to 0 (sync_log (fun _ m => m_payload m) L 16 true (hrun L pre) 512 1 []) = 1%nat.
-Proof. vm_compute. repeat split; reflexivity. Qed.
-
-(* the same witness for any level table with INFO below FATAL and room for one handler *)
-Lemma stale_refuted_gen L : (512 <? lv_fatal L) = true -> Nat.leb 1 (lv_max_handler L) = true ->
-  in_stale_class L (logger_init L) (stale_witness ++ [HLog 256 0 []]) = true /\
-  exists h, nth_error (lg_handlers (hrun L stale_witness)) 0 = Some h /\ h_level h <=? 256 = true /\
-  forall format limit fixed,
-    emits_to 0 (sync_log format L limit fixed (hrun L stale_witness) 256 0 []) = 0%nat.
+  forall format limit,
+    emits_to 0 (sync_log format L limit false (hrun L stale_witness) 256 0 []) = 0%nat /\
+    emits_to 0 (sync_log format L limit true (hrun L stale_witness) 256 0 []) = 1%nat.
 Proof.
   intros Hf Hm. apply Z.ltb_lt in Hf. apply Nat.leb_le in Hm.
   unfold stale_witness, hrun. simpl. unfold add_handler. simpl.
   assert (Nat.leb (lv_max_handler L) 0 = false) as -> by (apply Nat.leb_gt; lia).
   simpl. assert (512 <? lv_fatal L = true) as -> by (apply Z.ltb_lt; lia). simpl.
-  split; [reflexivity|]. eexists. split; [reflexivity|]. split; [reflexivity|].
-  intros format limit fixed. unfold sync_log. simpl. reflexivity.
+  eexists. split; [reflexivity|]. split; [reflexivity|].
+  intros format limit. split; reflexivity.
 Qed.
+
+(* non-vacuity of the history theorem: raise after add (the single-handler case), a lowering
+   below the snapshot, a level above FATAL *)
+Example ex_history :
+  let L := {| lv_warning := 768; lv_error := 1024; lv_fatal := 1280; lv_max_handler := 8 |} in
+  let pre := [HAdd {| h_kind := HCap; h_level := 512; h_fmt := 0 |}; HSet 0 1024; HLog 768 0 []; HSet 0 256] in
+  emits_to 0 (sync_log (fun _ m => m_payload m) L 16 true (hrun L (firstn 2 pre)) 768 0 []) = 0%nat /\
+  emits_to 0 (sync_log (fun _ m => m_payload m) L 16 true (hrun L pre) 256 1 []) = 1%nat /\
+  emits_to 0 (sync_log (fun _ m => m_payload m) L 16 true (hrun L pre) 255 2 []) = 0%nat /\
+  emits_to 0 (sync_log (fun _ m => m_payload m) L 16 true
+                (hrun L [HAdd {| h_kind := HFile; h_level := 1536; h_fmt := 0 |}]) 1300 3 []) = 0%nat.
+Proof. vm_compute. repeat split; reflexivity. Qed.
+
+(* the queue view of the async logger: while the writer thread is not held a call is the plain
+   async call; a message that waits in the queue is matched against the handler levels at the
+   time the writer thread is released, not at the time of the call *)
+Lemma aseq_unheld format L limit fixed lg pend level id text :
+  fst (aseq_step format L limit fixed {| aq_lg := lg; aq_held := None; aq_pending := pend |} (AOLog false level id text))
+  = {| aq_lg := lg; aq_held := None; aq_pending := pend |} /\
+  Some (snd (aseq_step format L limit fixed {| aq_lg := lg; aq_held := None; aq_pending := pend |} (AOLog false level id text)))
+  = async_log_seq format L limit fixed lg level id text true true.
+Proof.
+  unfold aseq_step, async_log_seq. simpl. destruct (prefilter fixed lg level); simpl; [|auto].
+  destruct (lg_handlers lg); simpl; auto.
+Qed.
+
+Lemma aseq_release_uses_current_levels format L limit fixed lg m0 pend :
+  snd (aseq_step format L limit fixed {| aq_lg := lg; aq_held := Some m0; aq_pending := pend |} AORelease)
+  = logger_write_from format L limit fixed 1 (tl (lg_handlers lg)) m0 ++ flat_map (logger_write format L limit fixed lg) pend.
+Proof. reflexivity. Qed.
+
+Example ex_held_relevel :
+  let L := {| lv_warning := 768; lv_error := 1024; lv_fatal := 1280; lv_max_handler := 8 |} in
+  let f := fun (_ : nat) (m : lmsg) => m_payload m in
+  let lg := hrun L [HAdd {| h_kind := HCap; h_level := 512; h_fmt := 0 |}] in
+  let s0 := {| aq_lg := lg; aq_held := None; aq_pending := [] |} in
+  let s1 := fst (aseq_step f L 16 true s0 (AOLog true 512 0 [65%N])) in       (* held inside handler 0 *)
+  let s2 := fst (aseq_step f L 16 true s1 (AOLog false 512 1 [66%N])) in      (* queued: accepted at call time *)
+  let s3 := fst (aseq_step f L 16 true s2 (AOSet 0 768)) in                   (* raised while it waits *)
+  length (snd (aseq_step f L 16 true s0 (AOLog true 512 0 [65%N]))) = 1%nat /\
+  aq_pending s2 = [{| m_level := 512; m_id := 1; m_payload := [66%N] |}] /\
+  snd (aseq_step f L 16 true s3 AORelease) = [].                              (* ... so it is not written *)
+Proof. vm_compute. repeat split; reflexivity. Qed.
